@@ -135,10 +135,18 @@ JudgeC09(e) ==
     [] e.ev = "dec" /\ Has(c, "want") ->
         \* bytes of a newer schema version (evolve universe): the unchecked decoder must agree with the checked one
         IF e.api # "MustUnmarshalBebop" THEN NAv
-        ELSE IF lastU.cid # e.cid \/ lastU.in # InOf(e) \/ lastU.res # "nil" THEN NAv
+        ELSE IF lastU.cid # e.cid \/ lastU.reuse \/ lastU.in # InOf(e) \/ lastU.res # "nil" THEN NAv
         ELSE FirstBad(<<
                <<e.res = "nil", "MustUnmarshalBebop fails on a valid encoding that UnmarshalBebop accepts: " \o e.res>>,
                <<e.res # "nil" \/ ValOf(e) = lastU.val, "MustUnmarshalBebop disagrees with UnmarshalBebop on a valid encoding (bytes of a peer's schema version)">> >>)
+    [] e.ev = "redec" ->
+        \* a receiver that already held another value: the unchecked decoder must leave what the checked one leaves
+        IF e.api # "MustUnmarshalBebop" THEN NAv
+        ELSE IF lastU.cid # e.cid \/ ~lastU.reuse \/ lastU.res # "nil" THEN NAv
+        ELSE FirstBad(<<
+               <<e.res = "nil", "MustUnmarshalBebop into a used receiver fails where UnmarshalBebop succeeds: " \o e.res>>,
+               <<e.res # "nil" \/ ValOf(e) = lastU.val,
+                 "MustUnmarshalBebop into a receiver that held another value leaves a different value than UnmarshalBebop does (options " \o ToString(c.opts) \o ")">> >>)
     [] e.ev = "dec" ->
         FirstBad(<<
           <<e.res = "nil", e.api \o " fails on a valid encoding under options " \o ToString(c.opts) \o ": " \o e.res>>,
@@ -266,7 +274,7 @@ Judge(e) ==
     [] OTHER -> NAv
 
 -----------------------------------------------------------------------------
-NoU == [cid |-> 0, res |-> "", val |-> <<>>, in |-> <<>>]
+NoU == [cid |-> 0, res |-> "", val |-> <<>>, in |-> <<>>, reuse |-> FALSE]
 Init == l = 1 /\ nOK = 0 /\ nKnown = 0 /\ nViol = 0 /\ nNA = 0 /\ lastU = NoU
 
 Report(j, e) ==
@@ -277,8 +285,8 @@ Step ==
   /\ l <= Len(Trace)
   /\ LET e == Trace[l]  j == Judge(e) IN
      /\ l' = l + 1
-     /\ lastU' = IF e.ev = "dec" /\ e.api = "UnmarshalBebop"
-                 THEN [cid |-> e.cid, res |-> e.res, val |-> ValOf(e), in |-> InOf(e)] ELSE lastU
+     /\ lastU' = IF e.ev \in {"dec", "redec"} /\ e.api = "UnmarshalBebop"
+                 THEN [cid |-> e.cid, res |-> e.res, val |-> ValOf(e), in |-> InOf(e), reuse |-> e.ev = "redec"] ELSE lastU
      /\ nOK'    = nOK    + (IF j.v = "OK" THEN 1 ELSE 0)
      /\ nNA'    = nNA    + (IF j.v = "NA" THEN 1 ELSE 0)
      /\ nKnown' = nKnown + (IF j.v = "KNOWN" THEN 1 ELSE 0)
